@@ -223,36 +223,110 @@ class AnnotateModel:
         if any(TX in assigned_names(s) for s in stmts_local(fn.body)):
             return False, "the text parameter is rebound", fn
         # every rebinding of start/end keeps start <= end
-        matches_src: Dict[str, ast.AST] = {}  # list name -> sliced-text expr
+        from .paths import guards_of
+
+        # name -> [(defining statement, kind, searched slice)]; kind "match" (finditer list / index: always a position) or "find" (-1 when absent)
+        pos_defs: Dict[str, List[Tuple[ast.stmt, str, ast.AST]]] = {}
         for s in stmts_local(fn.body):
             if isinstance(s, ast.Assign) and len(s.targets) == 1 and isinstance(s.targets[0], ast.Name):
                 v = s.value
+                nm = s.targets[0].id
                 inner = v.args[0] if isinstance(v, ast.Call) and dotted(v.func) in ("list", "tuple") and v.args else v
                 if isinstance(inner, ast.Call) and dotted(inner.func) in ("re.finditer",) and len(inner.args) >= 2:
-                    matches_src[s.targets[0].id] = inner.args[1]
+                    pos_defs.setdefault(nm, []).append((s, "match", inner.args[1]))
+                    continue
+                if isinstance(v, ast.Call) and isinstance(v.func, ast.Attribute) and v.func.attr in ("find", "rfind", "index", "rindex") and len(v.args) == 1 \
+                        and isinstance(v.func.value, ast.Subscript):
+                    pos_defs.setdefault(nm, []).append((s, "match" if v.func.attr in ("index", "rindex") else "find", v.func.value))
+                    continue
+            for nm in assigned_names(s) & set(pos_defs):
+                pos_defs[nm].append((s, "other", None))
+
+        def reaching(nm: str, at: ast.stmt):
+            """the definition of nm that reaches `at`: the closest earlier assignment whose block encloses `at`"""
+            anc = set()
+            cur = at
+            while cur is not None and cur is not fn:
+                anc.add(id(getattr(cur, "parent", None)))
+                cur = getattr(cur, "parent", None)
+            best = None
+            for d in pos_defs.get(nm, []):
+                if d[0].lineno < at.lineno or (d[0].lineno == at.lineno and d[0] is not at):
+                    if best is None or d[0].lineno >= best[0].lineno:
+                        best = d
+            if best is None or best[1] == "other" or id(getattr(best[0], "parent", None)) not in anc:
+                return None
+            return best
+
+        matches_src = {nm: True for nm in pos_defs}
+        find_vars = matches_src
+        fpaths = enumerate_paths(fn.body)
+
+        def position(e: ast.AST, at: ast.stmt) -> Optional[ast.AST]:
+            """e is an offset inside a searched slice (0 <= e <= len(slice)): returns the slice expression"""
+            mp = _match_pos(e, matches_src)
+            if mp is not None:
+                d = reaching(mp, at)
+                return d[2] if d is not None and d[1] == "match" else None
+            if isinstance(e, ast.Name) and e.id in pos_defs:
+                d = reaching(e.id, at)
+                if d is None:
+                    return None
+                if d[1] == "match" and not isinstance(d[2], ast.Subscript):
+                    return None
+                if d[1] == "match" and isinstance(d[0].value, ast.Call) and isinstance(d[0].value.func, ast.Attribute) and d[0].value.func.attr in ("index", "rindex"):
+                    return d[2]
+                if d[1] == "find":
+                    guards, _ = guards_of(fpaths, at)
+                    for c, o in guards:
+                        t = norm(c)
+                        if (t in (f"{e.id} == -1", f"{e.id} < 0", f"{e.id} <= -1") and not o) or (t in (f"{e.id} != -1", f"{e.id} >= 0", f"{e.id} > -1") and o):
+                            return d[2]
+            return None
+
+        def nonneg(e: ast.AST, at: ast.stmt) -> bool:
+            if isinstance(e, ast.Constant):
+                return isinstance(e.value, int) and e.value >= 0
+            if isinstance(e, ast.Call) and dotted(e.func) == "len":
+                return True
+            if isinstance(e, ast.BinOp) and isinstance(e.op, ast.Add):
+                return nonneg(e.left, at) and nonneg(e.right, at)
+            return position(e, at) is not None
+
+        def terms(e: ast.AST) -> List[ast.AST]:
+            if isinstance(e, ast.BinOp) and isinstance(e.op, ast.Add):
+                return terms(e.left) + terms(e.right)
+            return [e]
+
+        def slice_bounds(sl: ast.AST):
+            if isinstance(sl, ast.Subscript) and norm(sl.value) == TX and isinstance(sl.slice, ast.Slice) and sl.slice.step is None:
+                return (norm(sl.slice.lower) if sl.slice.lower is not None else "0", norm(sl.slice.upper) if sl.slice.upper is not None else None)
+            return None
+
         for s in stmts_local(fn.body):
             if not isinstance(s, (ast.Assign, ast.AugAssign, ast.AnnAssign)):
                 continue
             an = assigned_names(s)
+            v = getattr(s, "value", None)
             if EN in an:
-                # end = start + <match>.end()  => start <= end
-                v = getattr(s, "value", None)
-                ok = (isinstance(s, ast.Assign) and isinstance(v, ast.BinOp) and isinstance(v.op, ast.Add)
-                      and norm(v.left) == ST and _match_pos(v.right, matches_src) is not None)
+                # end = start + <offset found in text[start:..]> (+ non-negative terms)  =>  start <= end, rebased by the slice's own lower bound
+                ok = False
+                if isinstance(s, ast.Assign) and v is not None:
+                    ts = terms(v)
+                    if norm(ts[0]) == ST and len(ts) >= 2 and all(nonneg(t, s) for t in ts[1:]):
+                        srcs = [position(t, s) for t in ts[1:] if position(t, s) is not None]
+                        ok = len(srcs) == 1 and slice_bounds(srcs[0]) is not None and slice_bounds(srcs[0])[0] == ST
                 if not ok:
                     return False, f"cannot show start <= end after `{norm(s)}`", fn
             if ST in an:
-                # start = A + M.start(), M from finditer over text[A:end]  =>  start <= end
-                v = getattr(s, "value", None)
+                # start = A + <offset of a match found in text[A:end]>  =>  start <= end
                 ok = False
-                if isinstance(s, ast.Assign) and isinstance(v, ast.BinOp) and isinstance(v.op, ast.Add):
-                    mp = _match_pos(v.right, matches_src)
-                    if mp is not None:
-                        src = matches_src[mp]
-                        if (isinstance(src, ast.Subscript) and norm(src.value) == TX and isinstance(src.slice, ast.Slice)
-                                and src.slice.lower is not None and norm(src.slice.lower) == norm(v.left)
-                                and src.slice.upper is not None and norm(src.slice.upper) == EN):
-                            ok = True
+                if isinstance(s, ast.Assign) and v is not None:
+                    ts = terms(v)
+                    if len(ts) == 2:
+                        src = position(ts[1], s)
+                        sb = slice_bounds(src) if src is not None else None
+                        ok = sb is not None and sb[0] == norm(ts[0]) and sb[1] == EN
                 if not ok:
                     return False, f"cannot show start <= end after `{norm(s)}`", fn
         return True, "returns (s, e, text[s:e]); every rebinding of start/end keeps s <= e", fn
